@@ -178,6 +178,20 @@ StepResult(st, o, c, sc) ==
                       IF Failed(r.S) THEN (IF r.S.err.name = "wide" THEN "" ELSE "the specification raises an error, the evaluation succeeded")
                       ELSE IF ~VEq(o.val, r.v) THEN "value differs; expected " \o ToJson(r.v) ELSE ""
             ELSE ""]
+    [] st.op = "unparse" ->
+         \* text produced from a compiled program; with same_text_as: producing text from the reloaded program gives the same text
+         [C |-> c, why |-> IF Has(st, "same_text_as") /\ o.text # sc.obs[st.same_text_as].text
+                           THEN "the text produced from the reloaded program differs from the text it was loaded from" ELSE ""]
+    [] st.op = "execsaved" /\ Has(st, "same_as") ->
+         \* the saved text must be accepted and behave like the program it was produced from (relation between two runs)
+         LET b == sc.obs[st.same_as] IN
+         [C |-> PutCtx(c, st.ctx, [State0 EXCEPT !.unk = TRUE]),
+          why |-> IF b.oc = "parse_error" THEN ""
+                  ELSE IF o.oc = "parse_error" THEN "the saved text is rejected by the parser"
+                  ELSE IF o.oc # b.oc \/ Fld(o, "name", "") # Fld(b, "name", "") THEN "the reloaded program ends differently: " \o o.oc \o " " \o Fld(o, "name", "")
+                  ELSE IF o.out # b.out THEN "the reloaded program prints something else"
+                  ELSE IF ~VSame(o.rv, b.rv) THEN "the reloaded program returns something else"
+                  ELSE IF ~NoResidue(o) THEN "control state left behind" ELSE ""]
     [] Has(st, "same_as") ->
          \* C02 consequence: what ran without error as one unit (step same_as) behaves the same statement by statement
          LET b == sc.obs[st.same_as] IN
@@ -208,7 +222,7 @@ StepResult(st, o, c, sc) ==
          IN  [C |-> PutCtx(c, st.ctx, Settle(r.S)),
               why |-> LET w == RunWhy([o EXCEPT !.rv = [t |-> "none"]], [S EXCEPT !.hasrv = FALSE]) IN
                       IF w # "" THEN "stepwise: " \o w ELSE ""]
-    [] st.op \in {"exec", "step"} ->
+    [] st.op \in {"exec", "step", "execsaved"} ->
          IF Has(st, "reject") THEN \* a text the generator made invalid: must be rejected, context untouched
               [C |-> c, why |-> IF o.oc # "parse_error" THEN "an invalid text was not rejected: " \o o.oc
                                 ELSE IF ~NoResidue(o) THEN "parse state left behind" ELSE ""]
